@@ -45,7 +45,7 @@ Qed.
 
 Section Sound.
 Variable funs : Z -> option prog.
-Variable allow : list Z.
+Variable allow : policy.
 
 Scheme exec_mut := Induction for exec Sort Prop
   with fexec_mut := Induction for fexec Sort Prop.
@@ -89,6 +89,8 @@ Proof.
   - (* call unknown *) right. simpl. destruct n as [|n']; simpl; [auto|]. rewrite e. simpl; auto.
   - (* send ok *) left; simpl; rewrite e; simpl; auto.
   - (* send bad *) left; simpl; rewrite e; simpl; auto.
+  - (* close ok *) left; simpl; rewrite e; simpl; auto.
+  - (* close bad *) left; simpl; rewrite e; simpl; auto.
   - (* panic no *) left; simpl; auto.
   - (* panic yes *) left; simpl; auto.
   - (* seq norm *) simpl. destruct (H n) as [I|I].
